@@ -136,9 +136,8 @@ theorem callstep_owed (st : State) (pc : Pc) :
       pcOwed pc ++ (callStep st pc).2.2.1.flatMap notifyPending := by
   cases pc with
   | join s g as => by_cases c : as.filter (alive st) = [] <;> simp [callStep, pcOwed, c]
-  | joinFiltered s g as =>
-    simp only [callStep, pcOwed]
-    cases (joinEntry st s g as).2 <;> simp [pcOwed]
+  | joinFiltered s g as => simp [callStep, pcOwed]
+  | joinIn s g as todo => simp [callStep, pcOwed]
   | joinEntered s g as p => cases p <;> simp [callStep, pcOwed]
   | notify p => simp [callStep, pcOwed]
   | leave s g as =>
@@ -167,11 +166,23 @@ theorem acct_start (st : State) (calls : List Pc) (h : ∀ pc ∈ calls, pcOwed 
     apply List.flatMap_eq_nil_iff.mpr; exact h
   simp [start, owed, this]
 
+/-- a step that only replaces thread `i`'s pc, appends `new` records and sends nothing -/
+theorem acct_thr {g g' : G} (h : Acct g) (i : Nat) (pc pc' : Pc) (new : List Pending) (hp : g.thr[i]? = some pc)
+    (he : g'.exits = g.exits) (ht : g'.thr = g.thr.set i pc') (hs : g'.sent = g.sent)
+    (hc : g'.changes = g.changes ++ new) (ho : pcOwed pc' = pcOwed pc ++ new.flatMap notifyPending) : Acct g' := by
+  refine ⟨by rw [he]; exact h.kEx, ?_⟩
+  intro e
+  have h0 := h.bal e
+  have h1 := (flatMap_set_perm pcOwed g.thr i pc' pc hp).count_eq e
+  have h2 := congrArg (List.count e) ho
+  simp only [owed, he, ht, hs, hc, List.count_append, List.flatMap_append] at h0 h1 h2 ⊢
+  omega
+
 theorem acct_step {g : G} (h : Acct g) (t : Tid) : Acct (step g t) := by
   cases t with
   | ex b r =>
-    by_cases hg : r = .mark ∧ b ∈ g.st.dead
-    · rw [step_ex_guard g b r hg]; exact h
+    by_cases hg : exSkip g b r
+    · rw [step_ex_skip g b r hg]; exact h
     · rw [step_ex g b r hg]
       refine ⟨nodupKeys_set h.kEx _ _, ?_⟩
       intro e
@@ -185,14 +196,32 @@ theorem acct_step {g : G} (h : Acct g) (t : Tid) : Acct (step g t) := by
     cases hp : g.thr[i]? with
     | none => rw [step_call_none g i hp]; exact h
     | some pc =>
-      rw [step_call_some g i pc hp]
-      refine ⟨h.kEx, ?_⟩
-      intro e
-      have h0 := h.bal e
-      have h1 := (flatMap_set_perm pcOwed g.thr i (callStep g.st pc).2.1 pc hp).count_eq e
-      have h2 := congrArg (List.count e) (callstep_owed g.st pc)
-      simp only [owed, List.count_append, List.flatMap_append] at h0 h1 h2 ⊢
-      omega
+      by_cases hb : blocked g pc
+      · rw [step_call_blocked g i pc hp hb]; exact h
+      · by_cases c1 : ∃ s g' as, pc = .joinFiltered s g' as
+        · obtain ⟨s, g', as, rfl⟩ := c1
+          rw [step_call_lock g i s g' as hp hb]
+          exact acct_thr h i _ _ [] hp rfl rfl rfl (by simp) (by simp [pcOwed])
+        · by_cases c2 : ∃ s g' as todo, pc = .joinIn s g' as todo
+          · obtain ⟨s, g', as, todo, rfl⟩ := c2
+            cases todo with
+            | nil =>
+              rw [step_call_commit g i s g' as hp]
+              refine acct_thr h i _ _ (commitRec g s g').toList hp rfl rfl rfl rfl ?_
+              cases commitRec g s g' <;> simp [pcOwed]
+            | cons x todo =>
+              rw [step_call_one g i s g' as x todo hp]
+              exact acct_thr h i _ _ [] hp rfl rfl rfl (by simp) (by simp [pcOwed])
+          · have h1 : ∀ s g' as, pc ≠ .joinFiltered s g' as := fun s g' as e => c1 ⟨s, g', as, e⟩
+            have h2 : ∀ s g' as todo, pc ≠ .joinIn s g' as todo := fun s g' as todo e => c2 ⟨s, g', as, todo, e⟩
+            rw [step_call_other g i pc hp hb h1 h2]
+            refine ⟨h.kEx, ?_⟩
+            intro e
+            have h0 := h.bal e
+            have h1 := (flatMap_set_perm pcOwed g.thr i (callStep g.st pc).2.1 pc hp).count_eq e
+            have h2 := congrArg (List.count e) (callstep_owed g.st pc)
+            simp only [owed, List.count_append, List.flatMap_append] at h0 h1 h2 ⊢
+            omega
 
 theorem acct_run {g : G} (h : Acct g) (sched : List Tid) : Acct (run g sched) := by
   unfold run
@@ -210,7 +239,7 @@ theorem owed_atRest {g : G} (hk : NodupKeys g.exits) (h : atRest g) : owed g = [
     apply List.flatMap_eq_nil_iff.mpr
     intro p hp
     have hg : get g.exits p.1 = some p.2 := get_of_mem hk hp
-    have := h.2 p.1
+    have := h.2.1 p.1
     unfold phaseOf at this
     rw [hg] at this
     simp only [Option.getD_some] at this
